@@ -139,29 +139,29 @@ IntPool ==
 (* the property's own boundary set is a subset of IntPool *)
 IntBoundary ==
   {0, 1, -1, 2, -2, 46340, -46340, 46341, -46341, 65536, -65536, 2147483646, 2147483647, -2147483647, MinInt32}
-IntSmall == {0, 1, -1, 2, 7, -7, 46341, 2147483647, MinInt32}
+IntSmall == {0, 1, 7, -7, 2147483647, MinInt32}
 
 (* decimal magnitudes as <<integer digits, fractional digits>> *)
 P(id, fd) == [ds |-> id \o fd, sc |-> Len(fd)]
-DecMagCore ==                          \* quick tier
-  { P(<<0>>, <<0>>), P(<<0>>, <<0, 0>>), P(<<1>>, <<0>>), P(<<0>>, <<5>>), P(<<1>>, <<5>>), P(<<2>>, <<5>>),
-    P(<<1>>, <<5, 0>>), P(<<0>>, <<7>>), P(<<5>>, <<5>>), P(<<3>>, <<0>>),
+DecMagCore ==                          \* binary operators, quick tier
+  { P(<<0>>, <<0>>), P(<<1>>, <<0>>), P(<<0>>, <<5>>), P(<<2>>, <<5>>), P(<<1>>, <<5, 0>>), P(<<0>>, <<7>>), P(<<5>>, <<5>>),
     P(<<0>>, Rep(9, 20)),                                              \* 0.99999999999999999999
     P(<<2>>, Rep(9, 17)),                                              \* 2.99999999999999999
     P(<<0>>, Rep(0, 29) \o <<1>>),                                     \* 10^-30
-    P(<<1>>, Rep(0, 29) \o <<1>>),                                     \* 1 + 10^-30
     P(<<0>>, Rep(0, 16) \o <<5>>),                                     \* 0.5 * 10^-16
-    P(<<1,2,3,4,5,6,7,8,9>>, <<1,2,3,4,5,6,7,8,9>>),
     P(<<1,2,3,4,5,6,7,8,9,0,1,2,3,4,5,6,7,8,9>>, <<0,1,2,3,4,5,6,7,8,9,0,1,2,3,4,5,6,7,8,9,1>>),  \* 40 significant
     P(<<2,1,4,7,4,8,3,6,4,7>>, <<5>>),                                 \* MaxInt32 + 0.5
-    P(<<2,1,4,7,4,8,3,6,4,8>>, <<0>>),                                 \* 2^31
     P(<<2,1,4,7,4,8,3,6,4,8>>, <<5>>),                                 \* 2^31 + 0.5
-    P(<<9,9,9,9,9,9,9,9,9,9,9>>, <<9>>),                               \* 99999999999.9
     P(<<1,8,4,4,6,7,4,4,0,7,3,7,0,9,5,5,1,6,1,6>>, <<0>>),             \* 2^64
-    P(<<9,0,0,7,1,9,9,2,5,4,7,4,0,9,9,3>>, <<0>>),                     \* 2^53 + 1
     P(<<1>> \o Rep(0, 39), <<>>) }                                     \* 10^39, no fractional digit
-DecMagMore ==                          \* added in the thorough tier
-  { P(<<0>>, <<1>>), P(<<0>>, <<2, 5>>), P(<<0>>, <<7, 5>>), P(<<0>>, <<0, 5>>), P(<<3>>, <<5>>), P(<<0>>, <<3>>),
+DecMagMore ==                          \* binary operators in the thorough tier; unary operators always
+  { P(<<0>>, <<0, 0>>), P(<<1>>, <<5>>), P(<<3>>, <<0>>),
+    P(<<1>>, Rep(0, 29) \o <<1>>),                                     \* 1 + 10^-30
+    P(<<1,2,3,4,5,6,7,8,9>>, <<1,2,3,4,5,6,7,8,9>>),
+    P(<<2,1,4,7,4,8,3,6,4,8>>, <<0>>),                                 \* 2^31
+    P(<<9,9,9,9,9,9,9,9,9,9,9>>, <<9>>),                               \* 99999999999.9
+    P(<<9,0,0,7,1,9,9,2,5,4,7,4,0,9,9,3>>, <<0>>),                     \* 2^53 + 1
+    P(<<0>>, <<1>>), P(<<0>>, <<2, 5>>), P(<<0>>, <<7, 5>>), P(<<0>>, <<0, 5>>), P(<<3>>, <<5>>), P(<<0>>, <<3>>),
     P(<<7>>, <<0>>), P(<<1,0,0>>, <<0>>), P(<<4,6,3,4,1>>, <<0>>),
     P(<<0>>, <<4>> \o Rep(9, 19)),                                     \* 0.49999999999999999999
     P(<<0>>, <<5>> \o Rep(0, 18) \o <<1>>),                            \* 0.50000000000000000001
@@ -184,24 +184,22 @@ DecMagMore ==                          \* added in the thorough tier
     P(Rep(9, 40), <<>>),                                               \* 40 nines, no fractional digit
     P(<<1,0,0,0,0,0,0>>, <<0>>) }
 
-DecMags == IF Tier = "thorough" THEN DecMagCore \cup DecMagMore ELSE DecMagCore
-DecValues == {[neg |-> s, ds |-> p.ds, sc |-> p.sc] : s \in BOOLEAN, p \in DecMags}
+Signed(mags) == {[neg |-> s, ds |-> p.ds, sc |-> p.sc] : s \in BOOLEAN, p \in mags}
+DecValuesAll == Signed(DecMagCore \cup DecMagMore)
+DecValues == IF Tier = "thorough" THEN DecValuesAll ELSE Signed(DecMagCore)
 (* a small set of decimals used where the other operand varies *)
-DecFew == {[neg |-> s, ds |-> p.ds, sc |-> p.sc] :
-             s \in BOOLEAN, p \in {P(<<0>>, <<0>>), P(<<0>>, <<5>>), P(<<2>>, <<5>>), P(<<0>>, <<7>>),
-                                   P(<<2,1,4,7,4,8,3,6,4,7>>, <<5>>), P(<<0>>, Rep(9, 20))}}
-DecFhir == {[neg |-> s, ds |-> p.ds, sc |-> p.sc] :
-             s \in BOOLEAN, p \in {P(<<0>>, <<0>>), P(<<1>>, <<5, 0>>), P(<<2>>, <<5>>),
-                                   P(<<1,2,3,4,5,6,7,8,9>>, <<1,2,3,4,5,6,7,8,9>>),
-                                   P(<<2,1,4,7,4,8,3,6,4,8>>, <<5>>), P(<<0>>, Rep(0, 16) \o <<5>>)}}
+DecFew == Signed({P(<<0>>, <<0>>), P(<<0>>, <<5>>), P(<<2>>, <<5>>), P(<<2,1,4,7,4,8,3,6,4,7>>, <<5>>)})
+DecFhir == Signed({P(<<0>>, <<0>>), P(<<1>>, <<5, 0>>), P(<<2,1,4,7,4,8,3,6,4,8>>, <<5>>), P(<<0>>, Rep(0, 16) \o <<5>>)})
 
 DOp(v, src, ft) == OpD(v.neg, v.ds, v.sc, src, ft)
 
 (* operand sets *)
 IntEnv == {OpI(n, "env", "") : n \in IntPool}
-IntLit == {OpI(n, "lit", "") : n \in IntPool \ {MinInt32}}
+IntLit == {OpI(n, "lit", "") : n \in (IF Tier = "thorough" THEN IntPool ELSE IntBoundary) \ {MinInt32}}
 DecEnv == {DOp(v, "env", "") : v \in DecValues}
 DecLit == {DOp(v, "lit", "") : v \in {x \in DecValues : x.sc >= 1}}
+DecEnvAll == {DOp(v, "env", "") : v \in DecValuesAll}
+DecLitAll == {DOp(v, "lit", "") : v \in {x \in DecValuesAll : x.sc >= 1}}
 DecFewEnv == {DOp(v, "env", "") : v \in DecFew}
 DecFewLit == {DOp(v, "lit", "") : v \in DecFew}
 FhirOps ==
@@ -214,8 +212,11 @@ Bin(o, a, b) == [op |-> o, l |-> a, r |-> b, p |-> 0]
 Un(o, a, p)  == [op |-> o, l |-> a, r |-> NoOperand, p |-> p]
 RoundPs == {0, 1, 2, 5, 16, 30, -1}
 
-(* Every operand that occurs on the left (and as the operand of the unary operators). *)
-Lefts == IntEnv \cup IntLit \cup DecEnv \cup DecLit \cup FhirOps
+(* Every operand that occurs on the left of a binary operator / as the operand of a unary one. *)
+BinLefts == IntEnv \cup IntLit \cup DecEnv \cup DecLit \cup FhirOps
+UnOperands == IntEnv \cup IntLit \cup DecEnvAll \cup DecLitAll \cup FhirOps
+(* the (operator, left operand) seeds of the case space *)
+Seeds == {Un(o, a, 0) : o \in BinOps, a \in BinLefts} \cup {Un(o, a, 0) : o \in UnOps, a \in UnOperands}
 
 (* The right operands paired with left operand l under operator op:             *)
 (*   Integer x Integer  every pair of the pool, from variables and from literals *)
@@ -242,5 +243,6 @@ Expansions(op, l) ==
   ELSE IF op = "roundp" THEN {Un(op, l, p) : p \in RoundPs}
   ELSE {Un(op, l, 0)}
 
-Cases == UNION {Expansions(o, a) : o \in BinOps \cup UnOps, a \in Lefts}
+(* the whole case space (a parameter keeps TLC from evaluating it eagerly at start-up) *)
+CasesOf(seeds) == UNION {Expansions(s.op, s.l) : s \in seeds}
 =============================================================================
